@@ -14,7 +14,8 @@
      TEMPLATEStateMachine.h (transition blocks, per-event signature blocks with the signature oracle, initial-state lines, the transition-table
      line).  All their USER tags are fixed text, so the cleaned names are distinct for every element record (C07_keys_unique_TEMPLATEStateMachine_py / _h);
      names_ok_py / names_ok_h (= names_ok_x, syntactic): every name a non-empty alphanumeric word; the initial state, the names and values of the
-     per-state transition lists, the cells of the table rows and the oracle's signature strings free of '{', backslash and CR.  C07_dyn_plain_of_names:
+     per-state transition lists, the cells of the table rows and the oracle's signature strings the file asks for (both files: without defaults) free
+     of '{', backslash and CR.  C07_dyn_plain_of_names:
      then the output chunks of those four kinds of items are plain chunks (through the reference expansion, paren_clean and the sml table printer).
    * C07_tags_consumed_shipped(_user): the generator-tag half for every shipped file inside the block grammar (C07_shipped_files_in_grammar)
      (TEMPLATEReceiver.h and TEMPLATETransmitter.h carry no USER tag; their lines contain '{' next to name tags, which the
@@ -240,10 +241,10 @@ Print Assumptions C07_fresh_of_template_x.
 
 (* dyn_lines_plain follows from the names: if the literal pieces of the transition blocks / signature blocks / initial-state lines / table-line prefix of
    the template are free of '{', backslash and CR (dyn_ok07, computed on the template) and so are the states, events, initial state, the names and
-   values of the per-state transition lists, the cells of the table rows and both signature strings of every event of the oracle (dyn_names_ok,
-   syntactic), then every chunk those items put out -- through subst16 / subst_any with alternative texts, EngineSM.paren_clean and the boost::sml
+   values of the per-state transition lists, the cells of the table rows (dyn_names_ok, syntactic) and those signature strings of the oracle that the
+   template's lines ask for (sigs_clean07: without defaults for <<<SIGNATURE>>>, with defaults for <<<SIGNATUREWITHDEFAULTS>>>), then every chunk those items put out -- through subst16 / subst_any with alternative texts, EngineSM.paren_clean and the boost::sml
    printer EngineSM.sml_print with its padding and right-stripping -- is free of them and ends with LF, hence is a plain chunk *)
-Theorem C07_dyn_plain_of_names : forall e t, dyn_ok07 t = true -> dyn_names_ok e = true -> dyn_lines_plain e t = true.
+Theorem C07_dyn_plain_of_names : forall e t, dyn_ok07 t = true -> dyn_names_ok e = true -> sigs_clean07 t (el_evsigs e) = true -> dyn_lines_plain e t = true.
 Proof. exact dyn_plain_of_names. Qed.
 Print Assumptions C07_dyn_plain_of_names.
 
@@ -307,3 +308,15 @@ Example C07_wf_out_py_h_nonvacuous :
      end = true.
 Proof. split; [|split]; vm_compute; reflexivity. Qed.
 Print Assumptions C07_wf_out_py_h_nonvacuous.
+
+(* the condition on the oracle is needed: with a signature string that spells a USER tag of the file, every other hypothesis of C07_wf_out_TEMPLATEStateMachine_h
+   holds and the generated header is NOT a well-formed fresh file (the tag USER_LOCALS occurs three times) *)
+Example C07_oracle_condition_needed :
+  match tt_model cd_rows [] ["MessageHeader"] [] with
+  | Some m => let E := with_user [("StateMachineThread", "0")] (elements_of_model (with_sigs [("EventOpen", ("int x /* {{{USER_LOCALS}}} */", ""))] m)) in
+              names_plain E && dyn_names_ok E && user_lines_plain E (strip t_h) && wf_elements16 t_h E
+              && negb (sigs_clean07 (strip t_h) (el_evsigs E)) && negb (wf_fresh_file (fresh_h E))
+  | None => false
+  end = true.
+Proof. vm_compute. reflexivity. Qed.
+Print Assumptions C07_oracle_condition_needed.
